@@ -1,3 +1,4 @@
+import threading
 from collections.abc import Callable
 from typing import Generic, TypeVar
 
@@ -17,10 +18,11 @@ class _DelayState(Generic[T]):
 
 
 class Delay(IDeref[T], IPending):
-    __slots__ = ("_state",)
+    __slots__ = ("_lock", "_state")
 
     def __init__(self, f: Callable[[], T]) -> None:
         self._state = atom.Atom(_DelayState(f=f, value=None, computed=False))
+        self._lock = threading.RLock()
 
     @staticmethod
     def __deref(state: _DelayState) -> _DelayState:
@@ -30,7 +32,13 @@ class Delay(IDeref[T], IPending):
             return _DelayState(f=state.f, value=state.f(), computed=True)
 
     def deref(self) -> T | None:
-        return self._state.swap(self.__deref).value
+        state = self._state.deref()
+        if not state.computed:
+            # Only one thread at a time may run the body; the others wait here and
+            # then find the computed state (the check is repeated under the lock).
+            with self._lock:
+                state = self._state.swap(self.__deref)
+        return state.value
 
     @property
     def is_realized(self) -> bool:
